@@ -24,6 +24,8 @@ mod image;
 mod mask;
 mod path;
 mod render;
+#[cfg(resvg_verif)]
+pub mod verif;
 
 /// Renders a tree onto the pixmap.
 ///
